@@ -421,7 +421,15 @@ impl Audit {
                 mblobs.iter().map(|b| b.0).collect::<Vec<_>>()
             ));
         }
-        if dec.gc_stats != self.gc_stats {
+        // statistics are compared for the blob files of the version only (leftover entries of
+        // files that already left the version are outside the property's statement)
+        let live = |v: &Vec<(u64, usize, u64, u64)>| -> Vec<(u64, usize, u64, u64)> {
+            v.iter()
+                .filter(|e| self.blobs.iter().any(|b| b.id == e.0))
+                .copied()
+                .collect()
+        };
+        if live(&dec.gc_stats) != live(&self.gc_stats) {
             p.push(format!(
                 "version file gc stats {:?} != in-memory {:?}",
                 dec.gc_stats, self.gc_stats
